@@ -255,14 +255,17 @@ func Elab(a *Ast, o Opts) *TreeWire {
 
 // ---------- export of regexp2's real trees ----------
 
-func exportNode(t *TreeWire, n *syntax.RegexNode, setIDs map[*syntax.CharSet]int) {
+// set ids are interned by content hash in depth-first order: the order in which the writer
+// fills Code.Sets, so that a set id in the exported tree is the operand the writer emits
+func exportNode(t *TreeWire, n *syntax.RegexNode, setIDs map[string]int) {
 	set := 0
-	if n.Set != nil {
-		id, ok := setIDs[n.Set]
+	if n.Set != nil && (n.T == ntSet || n.T == ntSetloop || n.T == ntSetlazy || n.T == 45) {
+		key := string(n.Set.Hash())
+		id, ok := setIDs[key]
 		if !ok {
 			cs := n.Set
 			id = t.addSet(func(r rune) bool { return cs.CharIn(r) })
-			setIDs[n.Set] = id
+			setIDs[key] = id
 		}
 		set = id
 	}
@@ -274,7 +277,7 @@ func exportNode(t *TreeWire, n *syntax.RegexNode, setIDs map[*syntax.CharSet]int
 
 func ExportTree(tree *syntax.RegexTree, code *syntax.Code) *TreeWire {
 	t := &TreeWire{}
-	exportNode(t, tree.Root, map[*syntax.CharSet]int{})
+	exportNode(t, tree.Root, map[string]int{})
 	// slot -> group number
 	if code.Caps == nil {
 		for i := 0; i < code.Capsize; i++ {
